@@ -49,6 +49,13 @@ def literal_accepted(t, coll_t, lit, kind):
         val = [{'prim': 'Elt', 'args': [terms.value_json(t, k), {'prim': 'Unit'}]} for k in lit]
     ins = {'prim': 'PUSH', 'args': [terms.type_json(coll_t), val]}
     st = MichelsonStack()
+    if coll_t[0] == 'big_map':      # not pushable: literals arrive as storage / parameter values
+        from pytezos.michelson.types.base import MichelsonType
+        try:
+            MichelsonType.match(terms.type_json(coll_t)).from_micheline_value(val)
+            return True
+        except Exception:
+            return False
     try:
         MichelsonInstruction.match(ins).execute(st, [], ExecutionContext())
         return True
@@ -63,7 +70,7 @@ def run(ctx):
                 'collection and every observation compared after every step; every literal is pushed in pytezos and must be accepted iff the model accepts it')
     ctx.assumptions = ['big_map is covered by C15', 'projection/concretisation in terms.py']
     pools = key_pools()
-    vals = [s('v'), s('w')]
+    vals = [s(''), s('w')]       # the empty string is a falsy Python value: bound-to-empty must still count as bound
     gen = {'CollMC': MC % (to_tla(set(pools)), 'CASE ' + '\n   [] '.join('ty = %s -> %s' % (to_tla(t), to_tla(set(v))) for t, v in pools.items()), to_tla(set(vals)))}
     r = ctx.tlc('CollMC', CFG % (6 if ctx.quick else 8), gen=gen, timeout=1500, coverage=True)
     ctx.require_no_violation(r, 'Coll')
